@@ -238,15 +238,24 @@ def replay_edges(rep, b, edges, classes):
         for cname, b, cls in classes:
             if o['name'] in ('append', 'append_default', 'extend') and cname != 'MetadataObject':
                 continue
+            if o['name'] == 'ctor' and cname == 'GridColumns':
+                continue
             forms = ['list']
-            if o['name'] == 'extend' and len(set(k for k, _ in o['items'])) == len(o['items']):
-                forms = ['list', 'dict', 'sdict', 'meta']
+            if o['name'] in ('extend', 'ctor') and len(set(k for k, _ in o['items'])) == len(o['items']):
+                forms = ['list', 'dict', 'sdict', 'meta'] if o['name'] == 'extend' else ['list', 'dict']
             for form in forms:
                 o2 = dict(o)
-                if o['name'] == 'extend':
+                if o['name'] in ('extend', 'ctor'):
                     o2['form'] = form
-                m = b.make(cls, pre_o, pre_v)
-                got_res = b.apply(m, o2)
+                if o['name'] == 'ctor':
+                    try:
+                        m = construct(b, cls, o2)[0]
+                        got_res = ['None']
+                    except Exception as e:
+                        m, got_res = b.new(cls), [type(e).__name__]
+                else:
+                    m = b.make(cls, pre_o, pre_v)
+                    got_res = b.apply(m, o2)
                 got_items = b.observe(m)
                 n += 1
                 rep.case((cname, form) + key)
@@ -261,10 +270,44 @@ def replay_edges(rep, b, edges, classes):
     return n, len(groups)
 
 
-def random_history(rng, b, cls, nkeys, length):
-    """Drive the real class with a seeded random program; log op, result, projected state."""
-    m = b.new(cls)
+def construct(b, cls, o):
+    """the constructor event: the map, a twin built from the same initial object, and that object"""
+    items = [(key_of(k), b.val(v)) for k, v in o['items']]
+    src = dict(items) if o['form'] == 'dict' else b.SortableDict(items) if o['form'] == 'sdict' else list(items)
+    m = cls(src)
+    twin = cls(src)
+    return m, twin, src
+
+
+def twin_obs(b, twin, src, init, src0=None):
+    try:
+        now = b.observe(twin)
+        cur = [[int(k[1:]), b.unval(v)] for k, v in (src.items() if hasattr(src, 'items') else src)]
+    except Exception as e:
+        now, cur = [['exception', 0]], [[type(e).__name__, 0]]
+    return {'k': 'twin', 'init': init, 'now': now, 'src': cur, 'src0': cur if src0 is None else src0}
+
+
+def random_history(rng, b, cls, nkeys, length, ctor=None):
+    """Drive the real class with a seeded random program; log op, result, projected state.  With ctor (a form:
+    dict / list) the map is built by the constructor from an initial object, without a validator; a twin
+    built from the same object and the object itself are observed after every call."""
     evs = []
+    twin = None
+    if ctor:
+        ks = rng.sample(range(1, nkeys + 1), rng.randint(2, 4))
+        o = {'name': 'ctor', 'form': ctor, 'items': [[k, rng.randint(1, 5)] for k in ks]}
+        if ctor == 'list' and rng.random() < 0.5:
+            o['items'].append([ks[0], 5])          # a repeated key: the last value, the first position
+        m, twin, src = construct(b, cls, o)
+        o['r'] = ['None']
+        o['st'] = b.observe(m)
+        init = b.observe(twin)
+        o['obs'] = [twin_obs(b, twin, src, init)]
+        src0 = o['obs'][0]['src']
+        evs.append(o)
+    else:
+        m = b.new(cls)
     meta = cls is b.MetadataObject
     names = ['add_item'] * 6 + ['setitem'] * 3 + ['delitem', 'pop', 'pop_default', 'pop_at', 'popitem',
                                                   'sort', 'sort_by', 'sort_by', 'reverse', 'setdefault']
@@ -279,7 +322,7 @@ def random_history(rng, b, cls, nkeys, length):
             return rng.randint(1, nkeys)
         def V():
             r = rng.random()
-            return BAD if r < 0.07 else DEFAULT if r < 0.12 else rng.randint(1, 5)
+            return BAD if r < 0.07 and not ctor else DEFAULT if r < 0.12 else rng.randint(1, 5)
         o = {'name': n}
         if n == 'add_item':
             o.update(k=K(), v=V(), after=rng.random() < 0.5, replace=rng.random() < 0.8,
@@ -314,6 +357,8 @@ def random_history(rng, b, cls, nkeys, length):
         o['r'] = res
         o['st'] = b.observe(m)
         o['obs'] = b.observations(m, rng, nkeys)
+        if twin is not None:
+            o['obs'].append(twin_obs(b, twin, src, init, src0))
         evs.append(o)
     return evs
 
@@ -416,7 +461,9 @@ def run(tier):
         traces = []
         for i in range(nh):
             cname, bi, cls = classes[i % 3]
-            traces.append(random_history(rng, bi, cls, nk, ln))
+            # every fourth history of the two plain classes starts from the constructor with an initial object
+            ctor = ['dict', 'list'][(i // 4) % 2] if i % 4 == 1 and i % 3 != 2 else None
+            traces.append(random_history(rng, bi, cls, nk, ln, ctor=ctor))
         verdict = judge_traces(rep, work, traces, 'random')
         rep.traces += len(traces)
         rep.extra['random_histories'] = {'count': nh, 'length': ln, 'keys': nk}
@@ -458,8 +505,12 @@ def replay(path):
         if 'op' in c:
             cls = getattr(b, c['class'])
             pre = c['pre_items']
-            m = b.make(cls, [k for k, _ in pre], {k: v for k, v in pre})
-            got = (b.apply(m, c['op']), b.observe(m))
+            if c['op']['name'] == 'ctor':
+                m = construct(b, cls, c['op'])[0]
+                got = (['None'], b.observe(m))
+            else:
+                m = b.make(cls, [k for k, _ in pre], {k: v for k, v in pre})
+                got = (b.apply(m, c['op']), b.observe(m))
             print('got      :', got)
             print('allowed  :', [(a['result'], a['items']) for a in c['allowed']])
             ok = got in [(a['result'], a['items']) for a in c['allowed']]
@@ -472,6 +523,9 @@ def replay(path):
             # rebuild the state before the first kept event from the event before it (if any)
             new = []
             for e in evs:
+                if e['name'] == 'ctor':
+                    m, twin, src = construct(b, cls, e)
+                    continue
                 o = dict((k, v) for k, v in e.items() if k not in ('r', 'st'))
                 o['r'] = b.apply(m, o)
                 o['st'] = b.observe(m)
